@@ -97,7 +97,7 @@ Proof. exact ordinary_tokenize_analyze_end_to_end. Qed.
    the input between the specification's spans *)
 Theorem C04_group_grammar_tokens_partial :
   forall xpath a fls input,
-    ok_a xpath a = true -> existsb (N.eqb 59) fls = false -> (N.of_nat (length input) < umax)%N ->
+    ok_a xpath a = true -> existsb (N.eqb 59) fls = false -> (N.of_nat (length input) < umax)%N -> valid_in input ->
     match spec_flags xpath fls with
     | Valid sf =>
         s_q sf = false -> s_x sf = false ->
